@@ -21,6 +21,8 @@ for d in sorted(glob.glob(os.path.join(HERE, 'seeded', '*'))):
     by = m.get('caught_by_check') or m['property']
     if m.get('expect') == 'out_of_scope':
         out = 'out of scope, see scope_note in meta.json (breaks a property that is not claimed)'
+    elif m.get('expect') == 'extension_finding':
+        out = 'reported as EXTENSION-FINDING (interleaved-calls configuration only; exit code unaffected)'
     elif r:
         out = '{} - {} VIOLATION lines, replay reproduces on the patched tree: {}, on /repo: {}'.format(
             r['result'].lower(), r.get('violations'),
